@@ -435,7 +435,7 @@ var pureLib = map[string]bool{
 	"(time.Time).Format": true, "(time.Time).UTC": true, "(time.Time).IsZero": true, "(time.Time).Round": true, "(time.Time).Equal": true,
 	"(time.Time).Before": true, "(time.Time).After": true,
 	// reflection used as a pure accessor: the value of field i of a row is a function of the row and of i
-	"reflect.TypeOf": true, "reflect.ValueOf": true, "(reflect.Value).Field": true, "(reflect.Value).Interface": true, "(reflect.Value).Elem": true,
+	"reflect.TypeOf": true, "reflect.ValueOf": true, "reflect.New": true, "(reflect.Value).Field": true, "(reflect.Value).Interface": true, "(reflect.Value).Elem": true,
 }
 
 func paramTypes(sig *types.Signature) []types.Type {
